@@ -27,6 +27,7 @@ Inductive expr :=
   | XRange (k1 : Z) (l1 : list Z) (k2 : Z) (l2 : list Z)
   | XCall (sep : sepkind) (name : list Z) (args : list expr)   (* sep: the separator written between the arguments *)
   | XArr (sep : sepkind) (items : list expr)        (* flat array literal { e1 SEP e2 SEP ... } *)
+  | XArr2 (rs : sepkind) (row1 row2 : list expr)     (* two-row array literal { row1 ; row2 }, rows separated by rs *)
   | XNeg (e : expr)
   | XBin (b : binop) (l r : expr)
   | XPar (e : expr).
@@ -45,6 +46,7 @@ Section ExprInd.
   Hypothesis HRange : forall k1 l1 k2 l2, P (XRange k1 l1 k2 l2).
   Hypothesis HCall : forall sep n args, Forall P args -> P (XCall sep n args).
   Hypothesis HArr : forall sep items, Forall P items -> P (XArr sep items).
+  Hypothesis HArr2 : forall rs r1 r2, Forall P r1 -> Forall P r2 -> P (XArr2 rs r1 r2).
   Hypothesis HNeg : forall e, P e -> P (XNeg e).
   Hypothesis HBin : forall b l r, P l -> P r -> P (XBin b l r).
   Hypothesis HPar : forall e, P e -> P (XPar e).
@@ -56,6 +58,11 @@ Section ExprInd.
                         match l with [] => Forall_nil P | a :: r => Forall_cons a (expr_ind' a) (go r) end) args)
     | XArr sep items => HArr sep items ((fix go (l : list expr) : Forall P l :=
                         match l with [] => Forall_nil P | a :: r => Forall_cons a (expr_ind' a) (go r) end) items)
+    | XArr2 rs r1 r2 => HArr2 rs r1 r2
+                        ((fix go (l : list expr) : Forall P l :=
+                            match l with [] => Forall_nil P | a :: r => Forall_cons a (expr_ind' a) (go r) end) r1)
+                        ((fix go (l : list expr) : Forall P l :=
+                            match l with [] => Forall_nil P | a :: r => Forall_cons a (expr_ind' a) (go r) end) r2)
     | XNeg e => HNeg e (expr_ind' e)
     | XBin b l r => HBin b l r (expr_ind' l) (expr_ind' r)
     | XPar e => HPar e (expr_ind' e)
@@ -82,6 +89,7 @@ Fixpoint xtoks (e : expr) : list token :=
   | XRange k1 l1 k2 l2 => [Tok k1 l1; Tok T_COLON [58]; Tok k2 l2]
   | XCall sp n args => Tok T_FUNCTION n :: Tok T_LPAREN [40] :: args_toks sp xtoks args ++ [Tok T_RPAREN [41]]
   | XArr sp items => Tok T_LBRACKET [123] :: args_toks sp xtoks items ++ [Tok T_RBRACKET [125]]
+  | XArr2 rs r1 r2 => Tok T_LBRACKET [123] :: args_toks rs xtoks r1 ++ Tok T_SEMICOLON [59] :: args_toks rs xtoks r2 ++ [Tok T_RBRACKET [125]]
   | XNeg e => Tok T_MINUS [45] :: xtoks e
   | XBin b l r => xtoks l ++ Tok (op_term b) (op_lexeme b) :: xtoks r
   | XPar e => Tok T_LPAREN [40] :: xtoks e ++ [Tok T_RPAREN [41]]
@@ -116,6 +124,7 @@ Fixpoint xval (h : host) (e : expr) : evres value :=
   | XRange _ a _ b => call_range_value h a b
   | XCall _ n args => ebind (xvals (xval h) args) (fun vs => call_function h n vs)
   | XArr _ items => ebind (xvals (xval h) items) (fun vs => (ROk (VList vs), []))
+  | XArr2 _ r1 r2 => ebind (xvals (xval h) r1) (fun a => ebind (xvals (xval h) r2) (fun b => (ROk (VList [VList a; VList b]), [])))
   | XNeg e => ebind (xval h e) (fun v => (of_outcome (eval_neg v), []))
   | XBin b l r => ebind (xval h l) (fun lv => ebind (xval h r) (fun rv => (bin_res b lv rv, [])))
   | XPar e => xval h e
@@ -132,6 +141,9 @@ Fixpoint xwp (e : expr) : Prop :=
   | XRange k1 _ k2 _ => In k1 cell_kinds /\ In k2 cell_kinds
   | XCall _ _ args => (fix all (l : list expr) : Prop := match l with [] => True | a :: r => xwp a /\ all r end) args
   | XArr _ items => match items with [] => False | _ => (fix all (l : list expr) : Prop := match l with [] => True | a :: r => xwp a /\ all r end) items end
+  | XArr2 rs r1 r2 => rs <> SSemi /\ (2 <= length r1)%nat /\ (2 <= length r2)%nat /\
+      (fix all (l : list expr) : Prop := match l with [] => True | a :: r => xwp a /\ all r end) r1 /\
+      (fix all (l : list expr) : Prop := match l with [] => True | a :: r => xwp a /\ all r end) r2
   | XPar e => xwp e
   | XNeg e => xwp e /\ xtop e = None
   | XBin b l r => xwp l /\ xwp r
@@ -191,6 +203,15 @@ Definition bqC (sp : sepkind) : Z := goto_target (bsC sp).
 Definition bSeqCC (sp : sepkind) : Z := reduce_target (bqC sp) (sep_term sp).
 Definition bCloseN (sp : sepkind) : Z := shift_target (bqSC sp) T_RBRACKET.
 Definition bArrN (sp : sepkind) : Z := reduce_target (bCloseN sp) 0.
+(* two rows: after "{ row1 ;" *)
+Definition rS (rs : sepkind) : Z := shift_target (bqSC rs) T_SEMICOLON.
+Definition rA (rs : sepkind) : Z := goto_target (rS rs).
+Definition rSeqC (rs : sepkind) : Z := reduce_target (rA rs) (sep_term rs).
+Definition rqS (rs : sepkind) : Z := goto_nt (rS rs) (sep_nt rs).
+Definition rsC (rs : sepkind) : Z := shift_target (rqS rs) (sep_term rs).
+Definition rqC (rs : sepkind) : Z := goto_target (rsC rs).
+Definition rSeqCC (rs : sepkind) : Z := reduce_target (rqC rs) (sep_term rs).
+Definition rRows (rs : sepkind) : Z := reduce_target (rqS rs) T_RBRACKET.
 Definition qArr : Z := goto_nt 0 N_array.
 Definition iArrE : Z := reduce_target qArr 0.
 (* literals: STRING, XLERROR, and the composite number forms *)
@@ -363,6 +384,22 @@ Lemma F_arr_sep sp :
   prod_of (bSeqCC sp) = Some (sep_nt sp, 3, sep_fn sp, [- sep_nt sp; sep_term sp; - E]) /\
   prod_of (bArrN sp) = Some (N_array, 3, 10, [T_LBRACKET; - sep_nt sp; T_RBRACKET]).
 Proof. destruct sp; (split; [apply existsb_eqb_in; vm_compute; reflexivity|]); repeat split; vm_compute; reflexivity. Qed.
+Lemma F_rows rs : rs <> SSemi ->
+  act_of (bqSC rs) T_SEMICOLON = Some (Shift (rS rs)) /\ ES (rS rs) /\ ctx (rA rs) = None /\ goto_E (rS rs) = Some (rA rs) /\
+  act_of (rA rs) (sep_term rs) = Some (Reduce (rSeqC rs)) /\ prod_of (rSeqC rs) = Some (sep_nt rs, 1, sep_fn rs, [- E]) /\
+  goto_of (rS rs) (sep_nt rs) = Some (rqS rs) /\ act_of (rqS rs) (sep_term rs) = Some (Shift (rsC rs)) /\
+  ES (rsC rs) /\ ctx (rqC rs) = None /\ goto_E (rsC rs) = Some (rqC rs) /\
+  act_of (rqC rs) (sep_term rs) = Some (Reduce (rSeqCC rs)) /\ act_of (rqC rs) T_RBRACKET = Some (Reduce (rSeqCC rs)) /\
+  prod_of (rSeqCC rs) = Some (sep_nt rs, 3, sep_fn rs, [- sep_nt rs; sep_term rs; - E]) /\
+  act_of (rqS rs) T_RBRACKET = Some (Reduce (rRows rs)) /\
+  prod_of (rRows rs) = Some (N_expseqsemicolon, 3, 11, [- sep_nt rs; T_SEMICOLON; - sep_nt rs]) /\
+  act_of (bqC rs) T_SEMICOLON = Some (Reduce (bSeqCC rs)) /\ term T_SEMICOLON.
+Proof.
+  intros H. destruct rs; [|congruence|];
+    (split; [vm_compute; reflexivity|]); (split; [apply existsb_eqb_in; vm_compute; reflexivity|]);
+    do 6 (split; [vm_compute; reflexivity|]); (split; [apply existsb_eqb_in; vm_compute; reflexivity|]);
+    repeat split; try (vm_compute; reflexivity); unfold term, terminators; cbn; tauto.
+Qed.
 Lemma prod_eqb_eq p l n f r : prod_eqb p l n f r = true -> prod_of p = Some (l, n, f, r).
 Proof.
   unfold prod_eqb. destruct (prod_of p) as [[[[l' n'] f'] r']|]; [|discriminate]. intros H.
@@ -505,6 +542,7 @@ Fixpoint xsteps (e : expr) : nat :=
   | XDec _ _ => 4 | XFrac _ => 3 | XPct _ => 3 | XPowLit _ _ => 4 | XStr _ => 2 | XErr _ => 2
   | XCall _ _ args => (4 + sum_with xsteps args)%nat
   | XArr _ items => (5 + sum_with xsteps items)%nat
+  | XArr2 _ r1 r2 => (5 + sum_with xsteps r1 + sum_with xsteps r2)%nat
   | XNeg e => (2 + xsteps e)%nat
   | XBin _ l r => (xsteps l + xsteps r + 2)%nat
   | XPar e => (xsteps e + 3)%nat
@@ -570,6 +608,33 @@ Section SeqLoop.
         * apply IH; assumption.
         * intros ws _. cbn [fst snd tgt]. rewrite <- app_assoc. cbn [app]. apply rl_here.
   Qed.
+  (* a whole row of at least two items, from the state s0 that expects its first item *)
+  Variables (qA iS1 : Z).
+  Hypothesis HES0 : ES s0.
+  Hypothesis Hctx0 : ctx qA = None.
+  Hypothesis Hgo0 : goto_E s0 = Some qA.
+  Hypothesis HredFirst : act_of qA (sep_term sp) = Some (Reduce iS1).
+  Hypothesis PS1 : prod_of iS1 = Some (sep_nt sp, 1, sep_fn sp, [- E]).
+  Hypothesis Hsfn : seq_fn (sep_fn sp) = true.
+  Lemma row_all st0 rest a b r : top_state st0 = s0 -> Forall (expr_spec h) (a :: b :: r) -> all_wp (a :: b :: r) ->
+    reachle h (xsteps a + (1 + sum_with xsteps (b :: r))) (st0, args_toks sp xtoks (a :: b :: r) ++ closeTok :: rest)
+      (snd (xvals (xval h) (a :: b :: r)))
+      (tgt (fun vs => ((qS, SVseq vs) :: st0, closeTok :: rest)) (fst (xvals (xval h) (a :: b :: r)))).
+  Proof.
+    intros Htop HF Hwp. pose proof (Forall_inv HF) as Ha. pose proof (Forall_inv_tail HF) as Hr. destruct Hwp as [Hwa Hwr].
+    cbn [args_toks]. rewrite <- app_assoc. rewrite (xvals_cons (xval h) a (b :: r)).
+    eapply (rl_bind h (xval h a) _ _ (fun v => ((qA, SVval v) :: st0, seq_toks sp xtoks (b :: r) ++ closeTok :: rest))).
+    - apply Ha; try rewrite Htop; auto.
+      + unfold xenter_ok, enters. rewrite Hctx0. destruct (xtop a); exact I.
+      + left. rewrite seq_toks_cons. cbn [app la tk sep_tok]. exact Hterm.
+    - intros v _.
+      eapply rl_weaken with (N := S (sum_with xsteps (b :: r) + 0)); [lia|].
+      eapply rl_pure; [rewrite seq_toks_cons; cbn [app la tk sep_tok]; exact HredFirst|exact PS1|apply pop1|apply seq_action_1; exact Hsfn|rewrite Htop; exact HgoS|].
+      eapply (rl_bind h (xvals (xval h) (b :: r)) (fun vs => (ROk (v :: vs), [])) _
+                (fun ws => ((qS, SVseq ([v] ++ ws)) :: st0, closeTok :: rest))).
+      + apply (seq_loop st0 rest Htop (b :: r) Hr Hwr [v]).
+      + intros ws _. cbn [fst snd tgt app]. apply rl_here.
+  Qed.
 End SeqLoop.
 Lemma args_loop h sp name st rest : forall l, Forall (expr_spec h) l -> all_wp l -> forall vs0,
   let st0 := (sFL, SVtok [40]) :: (sF, SVtok name) :: st in
@@ -606,7 +671,7 @@ Proof.
   destruct P_closed as (PVS & PVar & PCellE & PCall0 & PSeq1 & PSeq1fn & PCall1).
   destruct F_call as (HshFL & HESFL & HctxA1 & HshF0 & HredSeq1 & HgoSeq1 & HshSeq1R & HgoFL).
   destruct F_lit_closed as (LsAD & LsADN & LsAP & LsAC & LsACN & LsDN & PStr & PXl & PDec & PPct & PPow & PFrac).
-  induction e as [d|ip fp|fp|pn|pa pb|str|xe|n|k lab|k1 l1 k2 l2|sp name args IHargs|sp items IHitems|e IH|b l r IHl IHr|e IH] using expr_ind';
+  induction e as [d|ip fp|fp|pn|pa pb|str|xe|n|k lab|k1 l1 k2 l2|sp name args IHargs|sp items IHitems|rs row1 row2 IHr1 IHr2|e IH|b l r IHl IHr|e IH] using expr_ind';
     intros Hwp st rest q HES Hgo Hent Hfol; pose proof (xfollow_follow _ _ Hfol) as Hfw;
     try (destruct (F_lit_shift _ HES) as (ShS & ShX & ShD)); try (destruct (F_lit_red _ Hfw) as (RS & RX & RDec & RPct & RPow & RFrac)).
   - (* number *)
@@ -755,6 +820,39 @@ Proof.
         eapply rl_pure; [exact RArrE|exact PArrE|apply pop1|reflexivity|exact Hgo|apply rl_here].
       * eapply rl_pure; [exact RArrN|exact PArrN|apply pop3|reflexivity|exact HgoArr|].
         eapply rl_pure; [exact RArrE|exact PArrE|apply pop1|reflexivity|exact Hgo|apply rl_here].
+  - (* two-row array literal *)
+    cbn [xwp] in Hwp. destruct Hwp as (Hrs & L1 & L2 & W1 & W2). change (all_wp row1) in W1. change (all_wp row2) in W2.
+    destruct row1 as [|a1 [|b1 r1]]; try (cbn in L1; lia). destruct row2 as [|a2 [|b2 r2]]; try (cbn in L2; lia).
+    destruct F_arr as (HESB & HctxB & HgoB & _ & _ & _ & _ & _ & _ & PArrE & HtermB).
+    destruct (F_arr_sep rs) as (HESC & HctxC & HredSeqC & HgoSC & HshC & HredC1 & _ & _ & HgoC & PSeqC & PSeqCC & _).
+    destruct (F_arr_sep SSemi) as (_ & _ & _ & HgoSemi & _ & _ & _ & HshCN & _ & _ & _ & PArrN).
+    destruct (F_sep rs) as (_ & _ & _ & _ & _ & _ & _ & _ & _ & _ & _ & _ & Hsfn & Hterm).
+    destruct (F_rows rs Hrs) as (HshSemi & HESR & HctxR & HgoR & HredR1 & PR1 & HgoRS & HshRC & HESRC & HctxRC & HgoRC & HredRC1 & HredRC2 & PRCC & HredRows & PRows & HredSemi & HtermSemi).
+    destruct (F_arr_es _ HES) as [HshB HgoArr]. destruct (F_arr_red SSemi _ Hfw) as (_ & RArrN & RArrE).
+    assert (xtoks (XArr2 rs (a1 :: b1 :: r1) (a2 :: b2 :: r2)) ++ rest =
+            Tok T_LBRACKET [123] :: args_toks rs xtoks (a1 :: b1 :: r1) ++ Tok T_SEMICOLON [59] :: args_toks rs xtoks (a2 :: b2 :: r2) ++ Tok T_RBRACKET [125] :: rest) as ->
+      by (cbn [xtoks]; cbn [app]; rewrite <- !app_assoc; cbn [app]; rewrite <- !app_assoc; reflexivity).
+    cbn [xval xsteps].
+    eapply rl_weaken with (N := S ((xsteps a1 + (1 + sum_with xsteps (b1 :: r1))) + (S ((xsteps a2 + (1 + sum_with xsteps (b2 :: r2))) + 4)))%nat);
+      [rewrite (sum_with_cons xsteps a1 (b1 :: r1)), (sum_with_cons xsteps a2 (b2 :: r2)); lia|].
+    eapply rl_shift; [exact HshB|]. cbn [lexeme].
+    set (st0 := (sB, SVtok [123]) :: st).
+    eapply (rl_bind h (xvals (xval h) (a1 :: b1 :: r1)) _ _
+              (fun vs => ((bqSC rs, SVseq vs) :: st0, Tok T_SEMICOLON [59] :: args_toks rs xtoks (a2 :: b2 :: r2) ++ Tok T_RBRACKET [125] :: rest))).
+    + apply (row_all h rs sB (bqSC rs) (bsC rs) (bqC rs) (bSeqCC rs) (Tok T_SEMICOLON [59])) with (qA := bA1) (iS1 := bSeqC rs); auto.
+      apply (forall_spec h _ IHr1 W1).
+    + intros vs1 _.
+      eapply rl_shift; [exact HshSemi|]. cbn [lexeme].
+      set (st1 := (rS rs, SVtok [59]) :: (bqSC rs, SVseq vs1) :: st0).
+      eapply (rl_bind h (xvals (xval h) (a2 :: b2 :: r2)) (fun b => (ROk (VList [VList vs1; VList b]), [])) _
+                (fun ws => ((rqS rs, SVseq ws) :: st1, Tok T_RBRACKET [125] :: rest))).
+      * apply (row_all h rs (rS rs) (rqS rs) (rsC rs) (rqC rs) (rSeqCC rs) (Tok T_RBRACKET [125])) with (qA := rA rs) (iS1 := rSeqC rs); auto.
+        apply (forall_spec h _ IHr2 W2).
+      * intros ws _. cbn [fst snd tgt].
+        eapply rl_pure; [exact HredRows|exact PRows|apply pop3|reflexivity|exact HgoSemi|].
+        eapply rl_shift; [exact HshCN|]. cbn [lexeme].
+        eapply rl_pure; [exact RArrN|exact PArrN|apply pop3|reflexivity|exact HgoArr|].
+        eapply rl_pure; [exact RArrE|exact PArrE|apply pop1|reflexivity|exact Hgo|apply rl_here].
   - (* unary minus *)
     destruct Hwp as [Hwp Htop]. cbn [xtoks xval xsteps app].
     eapply rl_shift; [apply H_neg_shift; exact HES|]. cbn [lexeme].
@@ -841,12 +939,16 @@ Proof.
 Qed.
 Lemma xsteps_bound e : (xsteps e <= 4 * length (xtoks e))%nat.
 Proof.
-  induction e as [d|ip fp|fp|pn|pa pb|str|xe|n|k lab|k1 l1 k2 l2|sp name args IHargs|sp items IHitems|e IH|b l r IHl IHr|e IH] using expr_ind';
+  induction e as [d|ip fp|fp|pn|pa pb|str|xe|n|k lab|k1 l1 k2 l2|sp name args IHargs|sp items IHitems|rs row1 row2 IHr1 IHr2|e IH|b l r IHl IHr|e IH] using expr_ind';
     cbn [xsteps xtoks length]; rewrite ?app_length; cbn [length]; try lia.
   - destruct args as [|a r]; [cbn; lia|]. inversion IHargs as [|? ? Ha Hr]; subst.
     rewrite sum_with_cons. cbn [args_toks]. rewrite app_length. pose proof (sum_bound sp r Hr). lia.
   - destruct items as [|a r]; [cbn; lia|]. inversion IHitems as [|? ? Ha Hr]; subst.
     rewrite sum_with_cons. cbn [args_toks]. rewrite app_length. pose proof (sum_bound sp r Hr). lia.
+  - assert (forall l, Forall (fun a => (xsteps a <= 4 * length (xtoks a))%nat) l -> (sum_with xsteps l <= 4 * length (args_toks rs xtoks l) + 2)%nat) as G.
+    { intros l Hl. destruct l as [|a r]; [cbn; lia|]. inversion Hl as [|? ? Ha Hr]; subst. rewrite sum_with_cons. cbn [args_toks]. rewrite app_length.
+      pose proof (sum_bound rs r Hr). lia. }
+    pose proof (G row1 IHr1). pose proof (G row2 IHr2). cbn [length]. rewrite ?app_length. cbn [length]. rewrite ?app_length. cbn [length]. lia.
 Qed.
 
 Definition record_of (r : res value) : precord :=
